@@ -217,6 +217,10 @@ func IgnoreGo() {}
 // Oracle names an environment decision for the engine's stubs (e.g. "process-cannot-be-started"). No-op natively.
 func Oracle(name string, v bool) {}
 
+// RealDelay lets real time pass natively (3 ms); under the engine the wall clock advances by an arbitrary
+// amount at every time.Now() anyway.
+func RealDelay() { time.Sleep(3 * time.Millisecond) }
+
 // Panics runs f and reports whether it panicked (ordinary Go; interpreted by the engine as is).
 func Panics(f func()) (p bool) {
 	defer func() {
